@@ -51,7 +51,7 @@ def budget(tier):
         return {"n": 200000, "wall_s": 1500, "workers": 16, "selftest": 24,
                 "env_variants": [{}, {"NUMBA_THREADING_LAYER": "omp"}, {"NUMBA_NUM_THREADS": "5"},
                                  {"NUMBA_THREADING_LAYER": "omp", "NUMBA_NUM_THREADS": "7"}]}
-    return {"n": 1600, "wall_s": 80, "workers": 16, "selftest": 8}
+    return {"n": 1600, "wall_s": 80, "workers": 16, "selftest": 16}
 
 
 def prime():
